@@ -201,7 +201,10 @@ def run_scenario(sc, strategy, line_level=False, max_steps=6000):
                     s.log(ev='peer_update')
 
     def dropper():
-        s.block(lambda: passed['n'] >= ncall, None, 'drop.wait')
+        if not sc.get('anytime'):
+            s.block(lambda: passed['n'] >= ncall, None, 'drop.wait')
+        else:
+            ready.wait()
         s.yield_('drop')
         if peer.open:
             peer.open = False
